@@ -237,6 +237,18 @@ class History(object):
         self.install_model(p, rep)
         return {"report": rep, "new_pages": 0, "anchor": p, "rule": rn}
 
+    def op_rmrule(self, n):
+        """remove_webentity_creation_rule on an installed rule: later insertions no longer see it"""
+        E = self.E
+        items = self.ref.rules.items()
+        if not items:
+            raise_infeasible(E)
+        lru, rn = items[E.choose(n + ".r", len(items))]
+        ok, res = E.call("remove_webentity_creation_rule", self.t.remove_webentity_creation_rule, lru)
+        E.check(ok, "remove_rule:refused", "removing an installed rule was refused")
+        self.ref.rules.pop(lru)
+        return {"new_pages": 0}
+
     def install_model(self, anchor, rep):
         from harness.common import is_stem_prefix
         E = self.E
@@ -286,7 +298,11 @@ class History(object):
         if we is None:
             raise_infeasible(E)
         weid, prefixes = we
-        ok, res = E.call("delete_webentity", self.t.delete_webentity, weid, list(prefixes))
+        if self.opts.get("api_variants") and E.flag(n + ".nocheck"):
+            E.reach("variant:delete-nocheck")
+            ok, res = E.call("delete_webentity", self.t.delete_webentity, weid, list(prefixes), check_for_corruption=False)
+        else:
+            ok, res = E.call("delete_webentity", self.t.delete_webentity, weid, list(prefixes))
         E.check(ok, "delete_webentity:refused", "deleting a webentity with its own prefix list was refused")
         for p in prefixes:
             self.ref.prefixes.pop(p)
@@ -341,7 +357,11 @@ class History(object):
             raise_infeasible(E)
         k = E.choose(n + ".k", len(we[1]))
         lru = we[1][k]
-        ok, res = E.call("remove_prefix_from_webentity", self.t.remove_prefix_from_webentity, lru, we[0])
+        if self.opts.get("api_variants") and E.flag(n + ".noweid"):
+            E.reach("variant:remove-noweid")
+            ok, res = E.call("remove_prefix_from_webentity", self.t.remove_prefix_from_webentity, lru)
+        else:
+            ok, res = E.call("remove_prefix_from_webentity", self.t.remove_prefix_from_webentity, lru, we[0])
         E.check(ok, "remove_prefix:refused", "removing a prefix from its own webentity was refused")
         self.ref.prefixes.pop(lru)
         return {"new_pages": 0, "weid": we[0]}
@@ -371,7 +391,15 @@ class History(object):
         dst = others[E.choose(n + ".dst", len(others))]
         k = E.choose(n + ".k", len(src[1]))
         lru = src[1][k]
-        ok, res = E.call("move_prefix_to_webentity", self.t.move_prefix_to_webentity, lru, dst[0], src[0])
+        variant = E.choose(n + ".variant", 3) if self.opts.get("api_variants") else 0
+        if variant == 1:
+            E.reach("variant:move-nosource")
+            ok, res = E.call("move_prefix_to_webentity", self.t.move_prefix_to_webentity, lru, dst[0])
+        elif variant == 2:
+            E.reach("variant:move-alias")
+            ok, res = E.call("move_prefix_to_webentity_from_webentity", self.t.move_prefix_to_webentity_from_webentity, lru, dst[0], src[0])
+        else:
+            ok, res = E.call("move_prefix_to_webentity", self.t.move_prefix_to_webentity, lru, dst[0], src[0])
         E.check(ok, "move_prefix:refused", "moving a prefix between two webentities was refused")
         self.ref.prefixes.set(lru, dst[0])
         return {"new_pages": 0}
